@@ -8,7 +8,19 @@ Implementation-level oracles (model-free): every respelling of a target (redirec
 argument (command rule) gets the same Match decision and the same analyze() verdict; an
 `allow-redirect D/**` never allows a target whose os.path.realpath lies outside realpath(D)
 (tree with symlinks); relative rules behave the same in directories that differ only by name
-(proj1 / proj[1]); in `**/L/*` and `**/L/?` the final wildcard matches no '/'."""
+(proj1 / proj[1]); in `**/L/*` and `**/L/?` the final wildcard matches no '/'.
+Second round (harness/spell.py): spelling families built by construction for 15 files (anchor: absolute, cwd-relative incl. the lone
+'.', '..', '~', './', through CWD/.., through ../base, ~/, ~/../h, through a symbolic link; decoration at every '/': '//', '/./',
+'zz/..' and 'dir/..' detours; trailing '/', '//', '/.', '/d/..'), each validated with os.path.realpath.  E: the rule (command rule
+at 8 positions, redirect rule, alias, after rule; plain / anchored / trailing ' *' / extra word; any blanks between the words)
+written with spelling p fires on the command / target written with spelling q iff they are the same file - all pairs of a
+capped family, every member of the full family with rotated partners, the undecorated forms fully crossed, other files as
+controls, glob tails ('*', '*.py', '?', classes, '**', '**/name') with ground truth from fnmatch / the directory tree on the real
+paths, five working directories (/, home, parent, through a symlink, a sub-directory).  B2: every helper of the normalisation chain
+against its model on small alphabets exhaustively (_expand_token on all strings of <= 4 characters over . / ~ a * :, both modes;
+_normalize_words / _normalize_pattern on all sequences of <= 2 (thorough: 3) of 28 tokens + every token at every position 0..8;
+str.split(); _resolve_alias on 14^3 (source, source, word) triples); Paths.nf against realpath on every generated spelling;
+model-free: _normalize_pattern(' '.join(ws)) == _normalize_words(ws)."""
 from __future__ import annotations
 
 import logging
@@ -17,7 +29,7 @@ import random
 import warnings
 from pathlib import Path
 
-from . import core, lib
+from . import core, lib, spell
 from . import rules_common as rc
 
 TRUSTED = rc.TRUSTED_COMMON + [
@@ -216,7 +228,23 @@ def run(tier, seed, replay=None):
                                        "what": f"_glob_match({text!r}, {pat!r}) = {got}; with '*'/'?' confined to one segment it is {want}",
                                        "signature_text": f"one-level pat={pat!r} text={text!r}"})
 
-        ORACLES = {"pattern-respell": pattern_case, "respell": respell_case, "confine": confine_case, "cwd-rename": rename_case, "one-level": level_case}
+        def spell_case(case):
+            """case: see spell.build - one rule whose pattern names files in one spelling, a command / target that names files in
+            another; the rule must fire exactly when they are the same files (glob tail: when fnmatch says so on the real paths)"""
+            cfg_text, subject, expected = spell.build(sc, case)
+            got = spell.fired(C, sc, case, cfg_text, subject)
+            out.count("spell." + case["rule"], f"{case.get('tpl', '-')}:{'tail' if case.get('tail') else 'same' if case['same'] else 'other'}:fires={expected}")
+            if got != expected:
+                subj = subject if isinstance(subject, str) else " ".join(subject)
+                out.violations.append({
+                    "kind": "spell", "case": case, "config": spell.unsub(sc, cfg_text), "subject": spell.unsub(sc, subj),
+                    "what": f"{case['rule']} rule {spell.unsub(sc, cfg_text)!r} on {spell.unsub(sc, subj)!r}: fires={got}; pattern and "
+                            f"{'target' if case['rule'] == 'redirect' else 'command'} name {'the same' if case['same'] else 'different'} file(s)"
+                            + (f", fnmatch on the real paths says {expected}" if case.get("tail") else f", so it must{'' if expected else ' not'} fire"),
+                    "signature_text": f"spell rule={case['rule']} tpl={case.get('tpl')} exact={case.get('exact')} star={case.get('star')} extra={case.get('extra')} "
+                                      f"tail={case.get('tail')} p={case['p']!r} q={case['q']!r}"})
+
+        ORACLES = {"spell": spell_case, "pattern-respell": pattern_case, "respell": respell_case, "confine": confine_case, "cwd-rename": rename_case, "one-level": level_case}
         if replay:
             fn = ORACLES.get(replay.get("kind"))
             if fn and replay.get("case"):
@@ -298,6 +326,77 @@ def run(tier, seed, replay=None):
             out.case(["nrp", sc.unsub(cwd), sc.unsub(pat)])
             if mv != real:
                 disagree("Rules.normalize_redirect_pattern <-> config._normalize_redirect_pattern", {"cwd": cwd, "pattern": pat}, mv, real)
+
+        # ---------------------------------------------------- B2. every helper of the normalisation chain, small alphabets exhaustively
+        import itertools
+        cwdp = Path(sc.cwd)
+        # tokens: every string of <= 4 characters over the characters _classify_token looks at (+ one neutral letter, one glob char)
+        T_CHARS = [".", "/", "~", "a", "*", ":"]
+        tokens4 = ["".join(t) for n in range(0, 5) for t in itertools.product(T_CHARS, repeat=n)]
+        tokens4 += ["$", "$a", "$/a", "a$", "~a", "~a/..", "a://", "a://a/..", "://", "~/a://", "/a://..", "-", "-/..", "a b", "é/..", "a\n/.."]
+        if quick:
+            tokens4 = [t for i, t in enumerate(tokens4) if len(t) <= 3 or i % 2 == 0]
+        for t in tokens4:
+            real = rc.guarded(lambda: C._expand_home_only(t))
+            mv = mcall(["expand_home_only", t])
+            out.case(["eho", t])
+            if mv != real:
+                disagree("Paths.expand_home_only <-> config._expand_home_only", {"token": t}, mv, real)
+            for force in (False, True):
+                real = rc.guarded(lambda: C._expand_token(t, cwdp, force_path=force))
+                mv = mcall(["expand_token", sc.cwd, t, force])
+                out.case(["et", t, force])
+                out.count("expand_token", C._classify_token(t, allow_url=not force))
+                if mv != real:
+                    disagree("Paths.expand_token <-> config._expand_token", {"cwd": sc.cwd, "token": t, "force_path": force}, mv, real)
+        # patterns / word lists: every sequence of <= 2 tokens (thorough: 3) over a token alphabet with every lone and prefixed form
+        TOK = [".", "..", "~", "/", "a", "./a", "../a", "a/..", "~/a", "/a", "a/", "a//b", "*", "a/*", "../*", "-f", "$X/a", "~u/a", "x://y",
+               "...", ".a", "~/", "./", "../", "..a", "a..", "~/..", "/.."]
+        seqs = [list(t) for n in (0, 1, 2) for t in itertools.product(TOK, repeat=n)]
+        seqs += [list(t) for t in itertools.product(TOK, repeat=3)][::(23 if quick else 1)]
+        # longer lists: every token of the alphabet at every position 0..8 among neutral words, and random lists
+        seqs += [["w%d" % j if j != pos else t for j in range(n)] for t in TOK for n in (4, 6, 9) for pos in range(n)]
+        seqs += [[rng.choice(TOK) for _ in range(rng.randint(4, 10))] for _ in range(200 if quick else 3000)]
+        SEPS = [" ", " ", " ", "  ", "\t", " \x0b", "\u00a0", "\x1f ", "\u2003"]
+        for si, ws in enumerate(seqs):
+            real = rc.guarded(lambda: C._normalize_words(list(ws), cwdp))
+            mv = mcall(["normalize_words", sc.cwd, ws])
+            out.case(["nw", ws])
+            if mv != real:
+                disagree("Paths.normalize_words <-> config._normalize_words", {"cwd": sc.cwd, "words": ws}, mv, real)
+            sep = SEPS[si % len(SEPS)]
+            ptxt = ("" if si % 7 else " ") + sep.join(ws) + ("" if si % 5 else " ")
+            real_p = rc.guarded(lambda: C._normalize_pattern(ptxt, cwdp))
+            mv = mcall(["normalize_pattern", sc.cwd, ptxt])
+            out.case(["npat", ptxt])
+            out.count("normalize_pattern", f"tokens={len(ws)}")
+            if mv != real_p:
+                disagree("Paths.normalize_pattern <-> config._normalize_pattern", {"cwd": sc.cwd, "pattern": ptxt}, mv, real_p)
+            # model-free: pattern normalisation of the joined words == word normalisation (C07_pattern_is_words on the real code)
+            if real_p != real and all(w and not any(ch.isspace() for ch in w) for w in ws):
+                out.violations.append({"kind": "norm-agree", "case": {"words": ws, "pattern": ptxt},
+                                       "what": f"_normalize_pattern({ptxt!r}) = {sc.unsub(str(real_p))!r} but _normalize_words({ws!r}) = {sc.unsub(str(real))!r}: "
+                                               "a rule written with the command's own words is normalised differently from the command",
+                                       "signature_text": f"norm-agree words={ws!r} pattern={ptxt!r}"})
+        for s_ in [" a  b ", "a\tb", "a\x0bb", "a\x1cb\x1db\x1eb\x1fb", "a\x85b", "a\u00a0b", "a\u1680b", "a\u2000b\u200ab", "a\u200bb", "a\u2028b\u2029b",
+                   "a\u202fb", "a\u205fb", "a\u3000b", "a\ufeffb", "", "   ", "\n", "a\r\nb"] + [rc.rand_text(rng, 6) for _ in range(200)]:
+            real = s_.split()
+            mv = mcall(["split_py", s_])
+            out.case(["split", s_])
+            if mv != real:
+                disagree("Paths.split_py <-> str.split()", {"text": s_}, mv, real)
+        # _resolve_alias: alias sources and the word from the token alphabet (first match in insertion order; compared normalised)
+        ATOK = ["a", "./a", "../proj/a", "~/a", "@CWD@/a", "@HOME@/a", "b", "a/", ".", "..", "~", "@CWD@", "a/../a", "*"]
+        for k, (s1, s2, w) in enumerate(itertools.product(ATOK, ATOK, ATOK)):
+            if quick and k % 3:
+                continue
+            al = {sc.sub(s1): "T1", sc.sub(s2): "T2"}
+            real = rc.guarded(lambda: C._resolve_alias(sc.sub(w), C.Config(aliases=al), cwdp))
+            mv = mcall(["resolve_alias", sc.cwd, sc.sub(w), [[a_, b_] for a_, b_ in al.items()]])
+            out.case(["alias", s1, s2, w])
+            out.count("resolve_alias", "hit" if real != sc.sub(w) else "miss")
+            if mv != real:
+                disagree("Rules.resolve_alias <-> config._resolve_alias", {"aliases": al, "word": w}, mv, real)
 
         # ---------------------------------------------------- C. match_redirect model <-> real (symlinks included)
         all_targets = []
@@ -409,6 +508,166 @@ def run(tier, seed, replay=None):
             level_case(case)
             out.case(case)
 
+        # ---------------------------------------------------- E. spelling families: pattern spelling x command spelling x rule kind x position
+        links = spell.scratch_links(sc)
+        files = spell.scratch_files(sc)
+        depth = 1 if quick else 2
+        fams = {n: spell.family(pth, sc.cwd, sc.home, links, depth) for n, pth, _ in files}
+        out.extra["spelling_family_sizes"] = {n: len(f) for n, f in fams.items()}
+        # the specification function of the C09 theorems against the file system: nf(home, cwd, spelling) is the file, for every
+        # generated spelling that does not pass through a symbolic link
+        for n, pth, _ in files:
+            for x in fams[n]:
+                if "symlink" in x.how:
+                    continue
+                mv = mcall(["nf", sc.home, sc.cwd, str(x)])
+                out.case(["nf", spell.unsub(sc, x)])
+                if mv != pth:
+                    disagree("Paths.nf (the lexical normal form the C09 theorems speak about) <-> os.path.realpath", {"spelling": str(x), "how": x.how}, mv, pth)
+        U = lambda x: spell.unsub(sc, x)
+        n_spell = 0
+        DECS = rc.VERDICTS
+
+        def emit(rule, tpl, ps, qs, same, i, tail=None, mode=None, cwd_=None, extra_=None, remote_=False):
+            nonlocal n_spell
+            mode = (i // 3) % 4 if mode is None else mode     # 0: plain prefix rule, 1: anchored, 2: trailing ' *', 3: plain + extra word
+            case = {"rule": rule, "dec": DECS[i % 3], "exact": mode == 1, "star": mode == 2, "msg": i % 2 == 0, "tpl": tpl,
+                    "extra": 1 if (mode == 3 or (i // 12) % 2) and not tail else 0, "p": [U(x) for x in ps], "q": [U(x) for x in qs],
+                    "same": same, "tail": tail}
+            if cwd_:
+                case["cwd"] = U(cwd_)
+            if extra_ is not None:
+                case["extra"] = extra_
+            if remote_:
+                case["remote"] = True
+            if i % 7 == 3 and rule in ("command", "after"):
+                case["sep"] = ("  ", "\t", " \t ")[(i // 7) % 3]
+            spell_case(case)
+            out.case(case, nontrivial=True)
+            n_spell += 1
+
+        cap_all = 30 if quick else 110
+        for fi, (name, pth, fkind) in enumerate(files):
+            fam = fams[name]
+            wfam = [x for x in fam if spell.pathword(x)]
+            # all pairs (pattern spelling, command spelling) for a command rule with the path as first argument, and for a redirect rule
+            P = spell.capped(wfam, cap_all, fi) if cap_all else wfam
+            i = fi
+            for pspell in P:
+                for qspell in P:
+                    emit("command", "arg1", [pspell], [qspell], True, i)
+                    i += 1
+            R = spell.capped(fam, cap_all, fi + 1) if cap_all else fam
+            for pspell in R:
+                for qspell in R:
+                    emit("redirect", None, [pspell], [qspell], True, i)
+                    i += 1
+            # every member of the full family on either side, partners rotated: other positions of the pattern, alias, after
+            # the undecorated forms (., .., ~, ./x, ../x, x/y, /abs, ~/x, CWD/../x ...): pattern form x command form x position x rule kind
+            plain = [x for x in wfam if "+" not in x.how]
+            for pspell in plain:
+                for qspell in plain:
+                    for tpl in spell.POSITIONS:
+                        emit("command", tpl, [pspell], [qspell], True, i)
+                        emit("after", tpl, [pspell], [qspell], True, i + 1)
+                        i += 2
+                    emit("alias", "name", [pspell], [qspell], True, i)
+                    i += 1
+            for tpl in spell.POSITIONS[1:]:
+                for pspell, qspell in spell.rotations(wfam, wfam, 2 if tpl in ("name", "arg2", "mid") else 1):
+                    emit("command", tpl, [pspell], [qspell], True, i)
+                    i += 1
+            for pspell, qspell in spell.rotations(wfam, wfam, 2):
+                emit("alias", "name", [pspell], [qspell], True, i)
+                emit("after", spell.POSITIONS[i % len(spell.POSITIONS)], [pspell], [qspell], True, i + 1)
+                i += 2
+            for pspell, qspell in spell.rotations(fam, fam, 2):
+                emit("redirect", None, [pspell], [qspell], True, i)
+                i += 1
+            for pspell in wfam:     # the pattern is the command's own text
+                emit("command", spell.POSITIONS[i % len(spell.POSITIONS)], [pspell], [pspell], True, i)
+                i += 1
+        # two path words in one pattern
+        for fi, (name, pth, fkind) in enumerate(files):
+            name2 = files[(fi + 4) % len(files)][0]
+            A = [x for x in fams[name] if spell.pathword(x)]
+            B = [x for x in fams[name2] if spell.pathword(x)]
+            for k, (pa, qa) in enumerate(spell.rotations(A, A, 1)):
+                emit("command", "two", [pa, B[(k * 5) % len(B)]], [qa, B[(k * 3 + 1) % len(B)]], True, k + fi)
+        # different files never satisfy a literal rule
+        for fi, (n1, p1, _) in enumerate(files):
+            for fj, (n2, p2, _) in enumerate(files):
+                if fi == fj:
+                    continue
+                A = spell.capped([x for x in fams[n1] if spell.pathword(x)], 10, fj)
+                B = spell.capped([x for x in fams[n2] if spell.pathword(x)], 10, fi)
+                for k, (pa, qb) in enumerate(spell.rotations(A, B, 1)):
+                    rule = ("command", "redirect", "alias", "after")[k % 4]
+                    emit(rule, ("arg1", "name", "mid", "arg2")[(k // 4) % 4] if rule != "alias" else "name", [pa], [qb], False, k + fi + fj)
+        # glob characters inside a path token: the directory respelled, the tail a glob
+        inside = {"cwd": "topfile", "dir": "file", "homedir": "homefile", "parent": "cwd", "grandparent": "home", "home": "homedir"}
+        for dn, fn in inside.items():
+            D = fams[dn]
+            F = spell.capped(fams[fn], 12, 3)
+            for k, dsp in enumerate(D):
+                for j in range(2):
+                    tail = spell.TAILS[(k + j * 3) % len(spell.TAILS)]
+                    qspell = F[(k * 5 + j) % len(F)]
+                    emit("redirect", None, [dsp], [qspell], True, k + j, tail=tail, mode=0)
+                    if spell.pathword(qspell):
+                        emit(("command", "after")[(k + j) % 2], ("arg1", "arg2", "mid")[k % 3], [dsp], [qspell], True, k + j, tail=tail, mode=0)
+        # opaque prefixes: a word that starts with an expansion the hook cannot know ($X, ${X}, ~user) or - in argument position - is
+        # URL-shaped names no known file, whatever follows it: a rule for a concrete file never fires on it (for every spelling
+        # of the rule's file, with the cwd-relative spelling of the file after PREFIX/.. and after PREFIX/y/../..)
+        OPAQUE = ["$X", "${X}", "$X/y/..", "~bob", "~bob/y/..", "$HOME"]
+        for fi, (name, pth, fkind) in enumerate(files):
+            rels = [x for x in fams[name] if x.how in ("rel", "dotrel", "parent")]
+            P = spell.capped(fams[name], 12, fi) if rels else []
+            for k, pspell in enumerate(P):
+                for j, op in enumerate(OPAQUE):
+                    rel = rels[(k + j) % len(rels)]
+                    emit("redirect", None, [pspell], [op + "/../" + rel], False, k + j, mode=0)
+                    if spell.pathword(pspell):
+                        emit(("command", "after", "alias")[(k + j) % 3], spell.POSITIONS[(k + j) % len(spell.POSITIONS)], [pspell],
+                             [(op if (k + j) % 2 else "x://h") + "/../" + rel], False, k + j)
+        # identity: no respelling claimed, but a rule written with exactly the command's own words fires on it - every short token
+        # over the characters classification looks at, URL- / variable- / ~user- / option- / assignment-shaped words
+        for k, t in enumerate(spell.identity_tokens()):
+            for j, tpl in enumerate(spell.POSITIONS):
+                if quick and len(t) == 4 and (k + j) % 4:
+                    continue
+                globby = any(c in t for c in "*?[")      # a glob pattern is matched against the whole command text: no extra word
+                emit(("command", "after")[(k + j) % 2], tpl, [t], [t], True, k + j, mode=0 if globby or (k + j) % 4 == 1 else (k + j) % 4,
+                     extra_=0 if globby else None)
+            emit("alias", "name", [t], [t], True, k)
+            # the same in remote mode (docker exec, ssh ...: no cwd normalisation on either side, ~ expanded on both)
+            emit("command", spell.POSITIONS[k % len(spell.POSITIONS)], [t], [t], True, k, mode=0 if globby else k % 4, extra_=0 if globby else None, remote_=True)
+            if "*" not in t and not (t.endswith("/") and t.strip("/") == ""):
+                emit("redirect", None, [t], [t], True, k)
+        # ** patterns of redirect rules: the directory respelled; targets below it and next to it, respelled
+        outside_of = {"cwd": "outside", "dir": "topfile", "homedir": "home", "parent": "grandparent", "grandparent": "sysfile", "home": "cwd"}
+        for dn, fn in inside.items():
+            D = fams[dn]
+            F = spell.capped(fams[fn], 10, 5)
+            O = spell.capped(fams[outside_of[dn]], 10, 7)
+            base = os.path.basename(dict((n, pth) for n, pth, _ in files)[fn])
+            for k, dsp in enumerate(D):
+                tails = ["**", "**/*", "**/" + base]
+                emit("redirect", None, [dsp], [F[(k * 3) % len(F)]], True, k, tail=tails[k % 3], mode=0)
+                emit("redirect", None, [dsp], [O[(k * 3 + 1) % len(O)]], False, k + 1, tail=tails[(k + 1) % 3], mode=0)
+        # other working directories: the root, the home directory, the parent, a directory reached through a symbolic link
+        for ci, cwd2 in enumerate(["/", sc.home, os.path.dirname(sc.cwd), sc.root + "/w/links/toout", sc.cwd + "/src"]):
+            real_cwd2 = os.path.realpath(cwd2)
+            for fi, (name, pth, fkind) in enumerate(files):
+                fam2 = spell.family(pth, real_cwd2, sc.home, (), 1)
+                if not quick or (fi + ci) % 2 == 0:
+                    w2 = [x for x in fam2 if spell.pathword(x)]
+                    for k, (pspell, qspell) in enumerate(spell.rotations(w2, w2, 1 if quick else 3)):
+                        emit(("command", "after", "alias")[k % 3], ("arg1", "name", "mid", "arg2")[k % 4], [pspell], [qspell], True, k + fi, cwd_=cwd2)
+                    for k, (pspell, qspell) in enumerate(spell.rotations(fam2, fam2, 1 if quick else 3)):
+                        emit("redirect", None, [pspell], [qspell], True, k + fi, cwd_=cwd2)
+        out.extra["spelling_cases"] = n_spell
+
         n, mism = core.coq_crosscheck("C09", xcheck)
         out.extra["coq_vm_crosscheck"] = {"cases": n, "mismatches": len(mism)}
         if mism:
@@ -420,7 +679,9 @@ def run(tier, seed, replay=None):
             "relative, ~, **, bracket patterns, messages) x spelled targets incl. symlinks; D: every canonical target (9 relative, "
             f"3 under HOME, 4 absolute incl. '/') x {out.extra['respellings_per_target']['min']}-{out.extra['respellings_per_target']['max']} "
             "respellings x (each single pattern + random rule lists) for redirect and command rules; confinement: 13 directory spellings "
-            "x 29 targets incl. symlink, '..' and '://' escapes; cwd renaming proj1/proj[1]; one-level ground truth. distinct = distinct "
+            "x 29 targets incl. symlink, '..' and '://' escapes; cwd renaming proj1/proj[1]; one-level ground truth; B2: normalisation helpers on "
+            f"small alphabets exhaustively; E: {out.extra.get('spelling_cases')} spelling cases (families of {min(out.extra['spelling_family_sizes'].values())}-"
+            f"{max(out.extra['spelling_family_sizes'].values())} spellings per file, see the module docstring). distinct = distinct "
             "canonical inputs; non-trivial = pattern with '**' (A), >= 2 rules (C), all of D")
         return out
     finally:
